@@ -654,6 +654,7 @@ func (c *client) loopWrite() {
 		case req = <-c.pendingReqs:
 		}
 
+		verifPause("client.write.taken", c)
 		switch c.filter.Do(req) {
 		case Continue:
 		case Stop:
